@@ -128,7 +128,7 @@ impl Tally {
     }
 }
 
-fn s1(ctx: &mut Ctx, full: bool) {
+fn s1(ctx: &mut Ctx, full: bool, four: bool) {
     // every byte string of length 1..=3 for n' in 1..=3
     let mut total = Tally::default();
     for l in 1..=3usize {
@@ -159,7 +159,30 @@ fn s1(ctx: &mut Ctx, full: bool) {
             total.merge(t);
         }
     }
-    let mut part = Part::new("S1_all_strings", "every byte string of length 1, 2, 3 decoded as n' = 1, 2, 3 coefficients: decompress vs bit-level Algorithm 18; accepted => compress reproduces the string");
+    if four {
+        // every 4-byte string for n' = 2, 3, 4 (3 x 2^32 decodes)
+        for n in 2..=4usize {
+            let tag = format!("n={},len=4", n);
+            let t: Tally = (0..65536u32)
+                .into_par_iter()
+                .map(|hi| {
+                    let mut t = Tally::default();
+                    let mut x = [(hi >> 8) as u8, hi as u8, 0u8, 0u8];
+                    for lo in 0..65536u32 {
+                        x[2] = (lo >> 8) as u8;
+                        x[3] = lo as u8;
+                        t.add(&x, n, &tag);
+                    }
+                    t
+                })
+                .reduce(Tally::default, |mut a, b| {
+                    a.merge(b);
+                    a
+                });
+            total.merge(t);
+        }
+    }
+    let mut part = Part::new("S1_all_strings", if four { "every byte string of length 1, 2, 3 decoded as n' = 1, 2, 3 coefficients and every 4-byte string decoded as n' = 2, 3, 4 coefficients: decompress vs bit-level Algorithm 18; accepted => compress reproduces the string" } else { "every byte string of length 1, 2, 3 decoded as n' = 1, 2, 3 coefficients: decompress vs bit-level Algorithm 18; accepted => compress reproduces the string" });
     part.exhaustive = true;
     if total.outcomes.get(&Outcome::Accept).copied().unwrap_or(0) == 0 && total.nviol == 0 {
         crate::ctx::machinery_error("C07 S1: no string was accepted (vacuity guard)");
@@ -392,7 +415,8 @@ fn s5(ctx: &mut Ctx, thorough: bool) {
 
 pub fn run(tier: Tier) {
     let mut ctx = Ctx::new("C07", tier);
-    s1(&mut ctx, true);
+    let four = tier.thorough() && ctx.build == "checked";
+    s1(&mut ctx, true, four);
     s2(&mut ctx);
     if tier.thorough() {
         s3(&mut ctx, 40, 16);
